@@ -590,3 +590,129 @@ def corr_glob(cases, nproc=8):
             nontriv.add((c[0], tuple(c[1]) if isinstance(c[1], list) else c[1], c[2], repr(c[3])))
     samples = [{'patterns': c[1], 'flags': flag_names(c[2]), 'exclude': c[3], 'result': e[:200]} for c, e in list(zip(keep, exps))[:: max(1, len(keep) // 4)]]
     return result(len(keep), len(nontriv), dis, samples, {'skipped_errors': dict(errs)})
+
+
+# ----------------------------------------------------------------------------------------------
+# WcMatch walker: recording subclass, kill schedules, model request
+# ----------------------------------------------------------------------------------------------
+
+def run_wcmatch_recorded(root, file_pat, excl_pat, flagv, kill_at=None, start_aborted=False, timeout=10):
+    """Run WcMatch(...).match() with every hook recorded; kill() is called inside the kill_at-th hook invocation
+    (0-based over _valid_folder, _valid_file, on_match, on_skip in order of occurrence).
+    Returns dict(result, skipped, events, request)."""
+    import os as _os
+    import signal
+    from wcmatch import wcmatch as WM
+    rec = {'vfo': {}, 'vfi': {}, 'mk': {}, 'sk': {}, 'events': 0, 'reset': 0, 'hooks': []}
+
+    def tick(obj, kind, base, name):
+        k = rec['events']
+        rec['events'] += 1
+        rec['hooks'].append((kind, base, name))
+        if kill_at is not None and k == kill_at:
+            obj.kill()
+            return True
+        return False
+
+    class W(WM.WcMatch):
+        def _valid_folder(self, base, name):
+            killed = tick(self, 'vfolder', base, name)
+            try:
+                r = super()._valid_folder(base, name)
+            except Exception:
+                rec['vfo'][(base, name)] = (False, killed)
+                raise
+            rec['vfo'][(base, name)] = (r, killed)
+            return r
+
+        def _valid_file(self, base, name):
+            killed = tick(self, 'vfile', base, name)
+            try:
+                r = super()._valid_file(base, name)
+            except Exception:
+                rec['vfi'][(base, name)] = ('R', killed)
+                raise
+            rec['vfi'][(base, name)] = ('V' if r else 'I', killed)
+            return r
+
+        def on_match(self, base, name):
+            rec['mk'][(base, name)] = tick(self, 'on_match', base, name)
+            return (base, name)
+
+        def on_skip(self, base, name):
+            rec['sk'][(base, name)] = tick(self, 'on_skip', base, name)
+            return None
+
+        def on_reset(self):
+            rec['reset'] += 1
+    walk_log = {}
+    links = {}
+    real_walk = _os.walk
+
+    def walk(top, topdown=True, onerror=None, followlinks=False):
+        for base, dirs, files in real_walk(top, topdown, onerror, followlinks):
+            walk_log[base] = (list(dirs), list(files))
+            for d in dirs:
+                links[_os.path.join(base, d)] = _os.path.islink(_os.path.join(base, d))
+            yield base, dirs, files
+
+    class Alarm(Exception):
+        pass
+
+    def onalarm(*a):
+        raise Alarm()
+    w = W(root, file_pat, excl_pat, flags=flagv)
+    if start_aborted:
+        w.kill()
+    _os.walk = walk
+    old = signal.signal(signal.SIGALRM, onalarm)
+    signal.alarm(timeout)
+    try:
+        res = w.match()
+        err = None
+    except Alarm:
+        res, err = None, 'TIMEOUT'
+    finally:
+        signal.alarm(0)
+        signal.signal(signal.SIGALRM, old)
+        _os.walk = real_walk
+    if err:
+        return {'error': err}
+    # the model needs the listing of every directory the uninterrupted walk would reach: complete the log
+    def e2(b, n):
+        return '%s|%s' % (enc(b), enc(n))
+    lst = ';'.join('%s=%s|%s' % (enc(k), ','.join(enc(x) for x in v[0]), ','.join(enc(x) for x in v[1])) for k, v in walk_log.items()) or '[]'
+    lk = ';'.join('%s:%d' % (enc(k), int(v)) for k, v in links.items()) or '[]'
+    vfo = ';'.join('%s:%d:%d' % (e2(*k), int(v[0]), int(v[1])) for k, v in rec['vfo'].items()) or '[]'
+    vfi = ';'.join('%s:%s:%d' % (e2(*k), v[0], int(v[1])) for k, v in rec['vfi'].items()) or '[]'
+    mk = ';'.join('%s:%d' % (e2(*k), int(v)) for k, v in rec['mk'].items()) or '[]'
+    sk = ';'.join('%s:%d' % (e2(*k), int(v)) for k, v in rec['sk'].items()) or '[]'
+    req = 'wcwalk %d %d %s %s %s %s %s %s %s' % (int(bool(flagv & WM.SYMLINKS)), int(start_aborted), enc(w._root_dir), lst, lk, vfo, vfi, mk, sk)
+    return {'result': res, 'skipped': w.get_skipped(), 'events': rec['events'], 'hooks': rec['hooks'], 'request': req, 'aborted': w.is_aborted(),
+            'resets': rec['reset'], 'obj': w}
+
+
+def corr_wcmatch(cases, nproc=8):
+    """cases: (root, file_pat, excl_pat, flags, kill_at, start_aborted)"""
+    import_impl()
+    m = Model()
+    reqs, exps, keep = [], [], []
+    for c in cases:
+        r = run_wcmatch_recorded(*c)
+        if 'error' in r:
+            continue
+        reqs.append(r['request'])
+        exps.append('ok %s %d %d %d' % (','.join('%s|%s' % (enc(b), enc(n)) for b, n in r['result']) or '[]', r['skipped'],
+                                        len([h for h in r['hooks'] if h[0] == 'vfile']), int(r['aborted'])))
+        keep.append(c)
+    outs = m.run(reqs, nproc=nproc)
+    dis = []
+    nontriv = set()
+    for c, o, e in zip(keep, outs, exps):
+        if o != e:
+            dis.append({'kind': 'wcmatch-walk', 'file_pattern': c[1], 'exclude_pattern': c[2], 'flags': c[3], 'kill_at': c[4],
+                        'start_aborted': c[5], 'impl': e[:400], 'model': o[:400]})
+        elif not e.startswith('ok [] '):
+            nontriv.add(c[1:])
+    samples = [{'file_pattern': c[1], 'exclude_pattern': c[2], 'flags': c[3], 'kill_at': c[4]} for c in keep[:: max(1, len(keep) // 4)]]
+    return result(len(keep), len(nontriv), dis, samples)
